@@ -468,7 +468,9 @@ func TestC10_ToInt(t *testing.T) {
 func TestC10_Rat(t *testing.T) {
 	runRapid(t, 20000, 800000, func(t *rapid.T) {
 		var v D
-		if ir(t, 0, 2, "kind") == 0 {
+		if k := ir(t, 0, 9, "kind"); k == 0 {
+			v = genZero(t)
+		} else if k <= 3 {
 			v = genFinite(t)
 		} else {
 			// moderate exponents: the bulk of real use, cheap to check
